@@ -159,6 +159,15 @@ func AtomicPoint(p unsafe.Pointer, write bool) {
 	do(request{kind: k, obj: uintptr(p)})
 }
 
+// AfterAtomic is a scheduling point right after an atomic load or compare-and-swap: the thread may be
+// preempted between reading the value and acting on it.
+func AfterAtomic(p unsafe.Pointer) {
+	if rt.Load() == nil {
+		return
+	}
+	do(request{kind: OpYield})
+}
+
 func chanAddr(ch any) uintptr {
 	return reflect.ValueOf(ch).Pointer()
 }
